@@ -1,4 +1,5 @@
 import CoercionModel.Proofs.Engine
+import CoercionModel.Proofs.Translated
 set_option linter.unusedSimpArgs false
 /-
   C06 — Bypass and pre-check gating: what must not run does not run.
@@ -114,5 +115,12 @@ def exB : MBlock := { idx := 1, bypass := some { idx := 2, actions := [{ idx := 
 example : blkStatus exB = .completed ∧ (execBlockR exB).evs.length = 2 := by decide
 example : blkStatus { exB with bypass := some { idx := 2, actions := [bad] } } = .failed := by decide
 example : blkPreOk { exB with bypass := none, pre := some { idx := 5, actions := [bad] } } = false := by decide
+
+/-- translated from the Go source on every run: after a recovery a gate (bypass / pre / cont group) is skipped
+    exactly when it is absent — a present group is never skipped, whatever its stored status — and a scope
+    counts as bypassed exactly when its bypass group exists and is Completed -/
+theorem translated_skipRecoveredChecks (o : Option Checks) : Generated.T1.skipRecoveredChecksOpt o = o.isNone := Translated.skipRecoveredChecks_eq o
+theorem translated_examineBypasses (o : Option Checks) : Generated.T1.examineBypassesOpt o = (o.map (·.status) == some .completed) :=
+  Translated.examineBypasses_eq o
 
 end Coercion.C06
